@@ -3,7 +3,7 @@ CURRENT source with `ast` (codebasin is never imported).  Fail-closed.
 
   MacroExpander.__init__      self.max_level = <int>
   macro_from_definition_string  the default expansion NumericalConstant(..., "1")
-                                and the separator Operator "="
+                                and the separator of string.partition("=")
   MacroFunction.replace        the variadic separator Punctuator(..., ",")
 """
 import ast
@@ -57,11 +57,13 @@ def generate(repo: Path):
             if n.args[2].value is not False:
                 raise ValueError("default expansion token: prev_white is not False")
             default = n.args[3].value
-        if isinstance(n, ast.Call) and isinstance(n.func, ast.Attribute) and n.func.attr == "match_value":
-            if len(n.args) != 2 or not (isinstance(n.args[0], ast.Name) and n.args[0].id == "Operator") \
-                    or not isinstance(n.args[1], ast.Constant):
-                raise ValueError("unexpected match_value call in macro_from_definition_string")
-            sep = n.args[1].value
+        if isinstance(n, ast.Call) and isinstance(n.func, ast.Attribute) and n.func.attr == "partition":
+            if len(n.args) != 1 or not isinstance(n.args[0], ast.Constant) or \
+                    not (isinstance(n.func.value, ast.Name) and n.func.value.id == "string"):
+                raise ValueError("unexpected partition call in macro_from_definition_string")
+            if sep is not None:
+                raise ValueError("more than one partition call in macro_from_definition_string")
+            sep = n.args[0].value
     if default is None or sep is None:
         raise ValueError("macro_from_definition_string: default expansion or separator not found")
     # --- variadic separator
